@@ -8,6 +8,8 @@ CONSTANTS
   FixDone = TRUE
   FixPublish = TRUE
   FixStats = TRUE
+  AtomicAdd = TRUE
+  TakeRegistry = TRUE
   Det = FALSE
 POSTCONDITION TraceReport
 CHECK_DEADLOCK FALSE
